@@ -19,7 +19,7 @@ type Fake struct {
 	Mu      sync.Mutex
 	Objs    map[string][]byte
 	Log     []string
-	Script  []string // per request: ok | 500 | timeout | drop | missing ; consumed in order, then ok
+	Script  []string // per request: ok | 500 | 409 | timeout | drop | missing ; consumed in order, then ok; "put:<act>" waits for the next PUT
 	Srv     *httptest.Server
 	GetFail map[string]bool // keys whose GET/HEAD was failed by the script
 }
@@ -36,8 +36,15 @@ func (f *Fake) handle(w http.ResponseWriter, r *http.Request) {
 	act := "ok"
 	isObj := strings.Count(strings.Trim(r.URL.Path, "/"), "/") >= 1
 	if isObj && len(f.Script) > 0 {
-		act = f.Script[0]
-		f.Script = f.Script[1:]
+		if strings.HasPrefix(f.Script[0], "put:") {
+			if r.Method == "PUT" {
+				act = f.Script[0][4:]
+				f.Script = f.Script[1:]
+			}
+		} else {
+			act = f.Script[0]
+			f.Script = f.Script[1:]
+		}
 	}
 	f.Log = append(f.Log, r.Method+" "+r.URL.Path+" -> "+act)
 	key := r.URL.Path
@@ -48,6 +55,12 @@ func (f *Fake) handle(w http.ResponseWriter, r *http.Request) {
 	switch act {
 	case "500":
 		w.WriteHeader(500)
+		return
+	case "409":
+		// an error the SDK does not retry by itself
+		w.Header().Set("Content-Type", "application/xml")
+		w.WriteHeader(409)
+		w.Write([]byte(`<?xml version="1.0" encoding="UTF-8"?><Error><Code>OperationAborted</Code><Message>A conflicting conditional operation is currently in progress against this resource.</Message></Error>`))
 		return
 	case "timeout":
 		time.Sleep(1500 * time.Millisecond)
